@@ -173,14 +173,17 @@ func (r *runningRoutine[K, V]) remove() {
 		return
 	}
 
+	var timer *time.Timer
 	timerCb := func() {
 		r.k.mtx.Lock()
-		if r.k.routines[r.key] == r && r.deferRemove != nil {
-			_ = r.deferRemove.Stop()
+		// only act if this timer is still the pending removal: the removal may
+		// have been cancelled (and requested again) after this timer fired.
+		if r.k.routines[r.key] == r && r.deferRemove != nil && r.deferRemove == timer {
 			r.deferRemove = nil
 			removeNow()
 		}
 		r.k.mtx.Unlock()
 	}
-	r.deferRemove = time.AfterFunc(r.k.releaseDelay, timerCb)
+	timer = time.AfterFunc(r.k.releaseDelay, timerCb)
+	r.deferRemove = timer
 }
